@@ -2,7 +2,8 @@
    operations reached (in place and copy-on-write). *)
 From Coq Require Import List ZArith Bool Arith Lia.
 From SC Require Import Base.Res Base.PyList Inst.Heap Inst.ClassTable Inst.Model Inst.Framed
-  Inst.TypeProofs Inst.OwnProofs Inst.OwnProofs2 Inst.OwnProofs3 Inst.OwnColl Inst.OwnCopy Inst.OwnCow.
+  Inst.TypeProofs Inst.OwnProofs Inst.OwnProofs2 Inst.OwnProofs3 Inst.OwnColl Inst.OwnCopy Inst.OwnCow
+  Inst.OwnInit.
 Import ListNotations.
 Open Scope nat_scope.
 Set Warnings "-unused-intro-pattern".
@@ -209,4 +210,128 @@ Proof.
       apply FI_of_Inv; auto; [now apply flat_class_b_sound|now apply keys_managed_b_sound].
   - apply andb_true_iff in Hop. destruct Hop as [H1 H2]. simpl.
     apply Inv_alloc; auto; [now apply Nat.ltb_lt|now apply norefs_b_sound].
+Qed.
+
+
+(* ------------------------------------------------------------------ *)
+(** * Constructor, del, reset_<a>: guards and the final combined statement *)
+Definition nonref_b (v : val) : bool := match v with VRef _ => false | _ => true end.
+Lemma nonref_b_sound v : nonref_b v = true -> nonref v.
+Proof. destruct v; simpl; try discriminate; intros _ c E; discriminate. Qed.
+
+Definition fac_flat_b (f : fac) : bool :=
+  match f with
+  | FacList xs | FacSet xs => forallb nonref_b xs
+  | FacDict kvs => forallb (fun p => nonref_b (fst p) && nonref_b (snd p)) kvs
+  | FacInst _ => false
+  end.
+Lemma fac_flat_b_sound f : fac_flat_b f = true -> fac_flat f.
+Proof.
+  destruct f; simpl; try discriminate; rewrite forallb_forall; intros H x Hx.
+  - apply nonref_b_sound. auto.
+  - specialize (H _ Hx). apply andb_true_iff in H. destruct H. split; now apply nonref_b_sound.
+  - apply nonref_b_sound. auto.
+Qed.
+
+Definition default_ok_b (k : cls) (sp : attr_spec) : bool :=
+  is_none (assoc (a_name sp) (c_overrides k)) && nonref_b (a_default sp) &&
+  match a_factory sp with Some f => fac_flat_b f | None => true end.
+Lemma default_ok_b_sound k sp : default_ok_b k sp = true -> default_ok k sp.
+Proof.
+  unfold default_ok_b, default_ok. rewrite !andb_true_iff. intros [[H1 H2] H3].
+  split; [destruct (assoc _ _); auto; discriminate|]. split; [now apply nonref_b_sound|].
+  destruct (a_factory sp); auto. now apply fac_flat_b_sound.
+Qed.
+
+Definition ctor_class_b (ct : ctable) (c : cid) : bool :=
+  match lookup_cls ct c with
+  | Some k =>
+      flat_class_b k && (c_owner k =? c) && (match tl (c_mro k) with [] => true | _ => false end) &&
+      is_none (c_post_init k) && forallb (fun sp => leaf_attr_b sp && default_ok_b k sp) (c_attrs k)
+  | None => false
+  end.
+Lemma ctor_class_b_sound ct c : ctor_class_b ct c = true -> exists k, ctor_class ct c k.
+Proof.
+  unfold ctor_class_b, ctor_class. destruct (lookup_cls ct c) as [k|]; [|discriminate].
+  rewrite !andb_true_iff. intros [[[[H1 H2] H3] H4] H5]. exists k.
+  split; auto. split; [now apply flat_class_b_sound|]. split; [now apply Nat.eqb_eq|].
+  split; [destruct (tl (c_mro k)); auto; discriminate|].
+  split; [destruct (c_post_init k); auto; discriminate|].
+  intros sp Hsp. rewrite forallb_forall in H5. specialize (H5 _ Hsp). apply andb_true_iff in H5.
+  destruct H5. split; [now apply leaf_attr_b_sound|now apply default_ok_b_sound].
+Qed.
+
+Definition flat_val_b (h : heap_t) (v : val) : bool :=
+  match v with
+  | VRef lx => match nth_error h lx with Some o => (shape o <? 3) && norefs_b o | None => false end
+  | _ => true
+  end.
+Lemma flat_val_b_sound h v : flat_val_b h v = true -> flat_val h v.
+Proof.
+  destruct v; simpl; auto. destruct (nth_error h l) as [o|] eqn:N; [|discriminate].
+  rewrite andb_true_iff, Nat.ltb_lt. intros [H1 H2]. exists o. split; auto. split; auto. now apply norefs_b_sound.
+Qed.
+
+Definition kw_flat_b (h : heap_t) (kw : list (aid * val)) : bool := forallb (fun p => flat_val_b h (snd p)) kw.
+Lemma kw_flat_b_sound h kw : kw_flat_b h kw = true -> kw_flat kw h.
+Proof.
+  unfold kw_flat_b, kw_flat. rewrite forallb_forall. intros H a v Hi. apply flat_val_b_sound. exact (H _ Hi).
+Qed.
+
+Definition del_ok_b (ct : ctable) (h : heap_t) (recv : val) (a : aid) : bool :=
+  match recv with
+  | VRef l =>
+      match nth_error h l with
+      | Some (OInst cl d) =>
+          match lookup_cls ct cl with
+          | Some k => match lookup_attr k a with
+                      | Some sp => leaf_attr_b sp && default_ok_b k sp
+                      | None => true end
+          | None => false end
+      | _ => false end
+  | _ => true
+  end.
+Lemma del_ok_b_sound ct h recv a :
+  del_ok_b ct h recv a = true ->
+  forall l, recv = VRef l -> exists cl k, is_inst l cl h /\ lookup_cls ct cl = Some k /\
+    forall sp, lookup_attr k a = Some sp -> leaf_attr sp /\ default_ok k sp.
+Proof.
+  intros H l ->. simpl in H. destruct (nth_error h l) as [[| | |cl d]|] eqn:N; try discriminate.
+  destruct (lookup_cls ct cl) as [k|] eqn:Hk; [|discriminate].
+  exists cl, k. split; [exists d; auto|]. split; auto. intros sp Ha. rewrite Ha in H.
+  apply andb_true_iff in H. destruct H. split; [now apply leaf_attr_b_sound|now apply default_ok_b_sound].
+Qed.
+
+(* Operations covered: those of owned_opa_b, and
+   - C(k1=v1, ...): a flat class with its own metadata, no spec parent, no __post_init__, leaf
+     attributes with scalar / factory-of-scalars defaults; keyword values flat (they are copied,
+     so they need not be fresh); no positional argument;
+   - del obj.a and obj.reset_<a>(_inplace=True): leaf attribute with such a default. *)
+Definition owned_opf_b (ct : ctable) (h : heap_t) (roots : list val) (o : op) : bool :=
+  owned_opa_b ct h roots o ||
+  match o with
+  | OpConstruct c None kw => ctor_class_b ct c && kw_flat_b h kw
+  | OpDelAttr x a => del_ok_b ct h (nth x roots VNone) a
+  | OpHelper x (HReset a) hh => h_inplace hh && del_ok_b ct h (nth x roots VNone) a
+  | _ => false
+  end.
+
+Theorem step_preserves_owned_final ct roots o s :
+  flat_table ct -> no_inval_b ct = true -> no_reserved_b ct = true ->
+  owned_opf_b ct (heap s) roots o = true ->
+  TypeInv ct s -> Owned ct (heap s) ->
+  TypeInv ct (snd (step ct roots o s)) /\ Owned ct (heap (snd (step ct roots o s))).
+Proof.
+  intros Hf Hn Hr Hop T O. unfold owned_opf_b in Hop. apply orb_true_iff in Hop.
+  destruct Hop as [Hop|Hop]; [now apply step_preserves_owned_all|].
+  pose proof (no_inval_b_sound ct Hn) as Hn'. pose proof (no_reserved_b_sound ct Hr) as Hr'.
+  assert (I : Inv ct (heap s)) by (split; auto).
+  change (Inv ct (heap (snd (step ct roots o s)))).
+  destruct o as [c pos kw| | x a | x hp hh | |]; try discriminate.
+  - destruct pos; [discriminate|]. apply andb_true_iff in Hop. destruct Hop as [H1 H2].
+    destruct (ctor_class_b_sound ct c H1) as [k Hc].
+    eapply step_construct; eauto. now apply kw_flat_b_sound.
+  - apply step_delattr; auto. now apply del_ok_b_sound.
+  - destruct hp; try discriminate. apply andb_true_iff in Hop. destruct Hop as [H1 H2].
+    apply step_reset_inplace; auto. now apply del_ok_b_sound.
 Qed.
